@@ -94,6 +94,75 @@ func runStop(c *ctx) {
 		e.sink.Close()
 		e.d.udp.Close()
 	}
+	// pipelined bursts from two peers: every request is answered exactly once, with its own sequence number, to its sender
+	for rep := 0; rep < 3; rep++ {
+		e := newBufEnv(c, netn)
+		e.start()
+		n := 300
+		peers := []*net.UDPConn{e.smf, e.fence}
+		type res struct{ got map[uint32]int; foreign int }
+		out := make([]res, len(peers))
+		var wgb sync.WaitGroup
+		for k, conn := range peers {
+			wgb.Add(1)
+			go func(k int, conn *net.UDPConn) {
+				defer wgb.Done()
+				base := uint32(0x10000 * (k + 1))
+				out[k].got = map[uint32]int{}
+				var recvd int32
+				go func() {
+					for i := 0; i < n; i++ {
+						// pipelined, but never more in flight than the socket buffers hold (loss there is not the UPF's)
+						for w := 0; int32(i)-atomic.LoadInt32(&recvd) >= 48 && w < 2000; w++ {
+							time.Sleep(100 * time.Microsecond)
+						}
+						b, _ := message.NewHeartbeatRequest(base+uint32(i), ie.NewRecoveryTimeStamp(time.Unix(1700000000, 0)), nil).Marshal()
+						conn.WriteToUDP(b, e.srvA)
+					}
+				}()
+				buf := make([]byte, 2048)
+				deadline := time.Now().Add(6 * time.Second)
+				for len(out[k].got) < n && time.Now().Before(deadline) {
+					conn.SetReadDeadline(time.Now().Add(300 * time.Millisecond))
+					m, _, err := conn.ReadFromUDP(buf)
+					if err != nil {
+						continue
+					}
+					atomic.AddInt32(&recvd, 1)
+					if msg, err := message.Parse(buf[:m]); err == nil {
+						sq := msg.Sequence()
+						if sq < base || sq >= base+uint32(n) {
+							out[k].foreign++
+						} else {
+							out[k].got[sq]++
+						}
+					}
+				}
+			}(k, conn)
+		}
+		wgb.Wait()
+		unanswered, dup, foreign := 0, 0, 0
+		for k := range peers {
+			unanswered += n - len(out[k].got)
+			foreign += out[k].foreign
+			for _, v := range out[k].got {
+				if v > 1 {
+					dup++
+				}
+			}
+		}
+		r := "ok"
+		if unanswered+dup+foreign > 0 {
+			r = fmt.Sprintf("unanswered=%d,twice=%d,foreign=%d", unanswered, dup, foreign)
+		}
+		c.count("burst")
+		c.emit("T stop.burst peers=%d n=%d = %s", len(peers), n, r)
+		e.stop()
+		e.smf.Close()
+		e.fence.Close()
+		e.sink.Close()
+		e.d.udp.Close()
+	}
 	// stress under the race detector
 	runs := 12
 	if c.thorough() {
